@@ -117,6 +117,27 @@ impl RealServer {
 
 pub type Census = BTreeMap<u64, (Vec<u32>, BTreeMap<String, String>)>;
 
+/// Census with reconnect + retry: a loaded machine can reset a fresh HTTP/2 connection; only a
+/// server that stays unreachable over several attempts counts as not answering.
+pub fn census_retry(port: u16, max_id: u64) -> Result<Census, String> {
+    let mut last = String::new();
+    for attempt in 0..5 {
+        match Client::connect(port).and_then(|mut c| c.census(max_id)) {
+            Ok(c) => return Ok(c),
+            Err(e) => last = e,
+        }
+        std::thread::sleep(Duration::from_millis(100 * (attempt + 1)));
+    }
+    Err(last)
+}
+
+impl RealServer {
+    /// Some(exit code) if the process has already exited.
+    pub fn exited(&mut self) -> Option<Option<i32>> {
+        self.child.try_wait().ok().flatten().map(|s| s.code())
+    }
+}
+
 pub struct Client {
     pub rt: tokio::runtime::Runtime,
     pub c: KyroDbServiceClient<tonic::transport::Channel>,
